@@ -1,6 +1,7 @@
 (* C10 - Each seat is told exactly what the protocol entitles it to, and nothing else (every schedule).
    Only statements, each closed by [exact]; proofs are in the files imported below. *)
 From BE Require Import Model.Session Model.SessionTie Spec.SessionSpec Proofs.Kahn Proofs.Session Proofs.SessionExamples Proofs.View.
+From BE Require Import Gen.Skeleton Proofs.SkeletonPin.
 From Coq Require Import ZArith.
 Local Open Scope string_scope.
 Local Open Scope nat_scope.
@@ -40,6 +41,12 @@ Theorem C10_canonical_run_is_a_run :
   run_session fuel x = (s, sched, true) -> srun sched (init_state x) = Some s /\ sfinal s.
 Proof. exact canonical_run_sound. Qed.
 Print Assumptions C10_canonical_run_is_a_run.
+
+(* the synchronisation skeleton of server.py, re-extracted from the source on this run, is the one the session model was written against *)
+Theorem C10_server_skeleton_is_the_modelled_one :
+  server_skeleton = pinned_server_skeleton.
+Proof. exact server_skeleton_pinned. Qed.
+Print Assumptions C10_server_skeleton_is_the_modelled_one.
 
 (* the complete transcript of every connection does not depend on thread timing *)
 Theorem C10_transcripts_independent_of_timing_partial :
